@@ -117,6 +117,10 @@ def base_pool():
     # a high and a low surrogate as two code points: the round trip joins them (D41); other surrogates stay
     out += ['\ud83d\ude00', 'x\ud83d\ude00y', ['\ud83d\ude00'], {'\ud83d\ude00': 1}, {'k': '\ud83d\ude00'}, '\ude00\ud83d',
             '\ud800', '\U0001f600', '\U0001f600\ud83d', S('\ud83d\ude00')]
+    # the same pair as a dict *key*, next to the joined spelling of that key (seed C16k: keys that skip the joining
+    # are told apart from the joined key by is_equal / to_hashable although their terms are one JSON string)
+    out += [{'\U0001f600': 1}, {'k': {'\ud83d\ude00': 2}}, {'k': {'\U0001f600': 2}}, [{'x\ud83d\ude00': None}],
+            [{'x\U0001f600': None}], {S('\ud83d\ude00'): 1}]
     return out
 
 
